@@ -93,6 +93,20 @@ with concurrent.futures.ThreadPoolExecutor(max_workers=8) as ex:
         if len(cov["samples"]) < 2:
             first = json.loads(open(path).readline())
             cov["samples"].append({"kind": name + " history", "events": hist(path, first["h"])[:20]})
+# ---- subscribe storm (harness/cmd/substorm): connections subscribing to the same channels in different orders at the same
+# moment, then one PUBLISH per channel: nobody may stay blocked
+import subprocess
+st_tool = ks.build_tool("substorm")
+sp = subprocess.run([st_tool, "-seed", str(seed), "-rounds", "2000" if tier == "quick" else "40000"], stdout=subprocess.PIPE, stderr=subprocess.PIPE, text=True, timeout=3000)
+for line in sp.stdout.splitlines():
+    if line.startswith("SUMMARY "):
+        cov["subscribe_storm"] = json.loads(line[8:])
+    elif line.startswith("{"):
+        a = json.loads(line)
+        v.report({"branch": "pubsub.storm", "kind": a["kind"], "detail": ""}, a, what="subscribe storm, round %d: %s" % (a["round"], a["detail"]))
+if sp.returncode != 0:
+    v.report({"branch": "pubsub.storm", "kind": "process-death", "detail": sp.stderr.strip().splitlines()[0][:80] if sp.stderr.strip() else ""}, {"stderr": sp.stderr[-1500:]},
+             what="the process died during the subscribe storm: %s" % (sp.stderr.strip().splitlines()[0][:200] if sp.stderr.strip() else sp.returncode))
 cov["traces_validated_against_impl"] = sum(r["histories"] for r in cov["runs"].values())
 v.finish(tier, "model_checking", cov, ["order is promised per channel (messages of different channels may overtake each other on one connection)",
                                        "SUBSCRIBE a b is one subscription per channel; a subscriber whose close overlaps a PUBLISH may or may not be counted in its reply (DESIGN.md 2.4)",
